@@ -179,12 +179,14 @@ def r4_error_vs_empty(ctx, res):
     if tries:
         res.find(key, wi.module.loc(wi.node), 'Wordnet.__init__ catches exceptions: a request matching no lexicon may no longer be an error')
     key = 'wordnet-default-request'
-    s = Frag(wi.node)
+    from ..speccheck import view
+    wv = view(ctx, '_core', 'Wordnet.__init__')
     res.inst(key, wi.module.loc(wi.node), "find_lexicons(lexicon or '*', lang=lang)")
-    dm = norm(ast.parse('self._default_mode = (not lexicon and not lang)').body[0])
-    if "find_lexicons(lexicon or '*', lang=lang)" not in s or dm not in s:
+    sel = [r for r in wv.rows if r[0] == 'store' and r[1].startswith('self._lexicons = ')]
+    dm = wv.find('store', 'self._default_mode = not lexicon and (not lang)')
+    if len(sel) != 1 or sel[0][2] or "find_lexicons(lexicon or '*', lang=lang)" not in sel[0][1] or not dm or dm[0][2]:
         res.find(key, wi.module.loc(wi.node), "Wordnet.__init__ no longer selects with find_lexicons(lexicon or '*', lang=lang) / default mode "
-                                              'iff neither lexicon nor lang is given')
+                                              f'iff neither lexicon nor lang is given: {[r[1][:90] for r in sel]}')
     # the request reaches the query unmodified: lexicon and lang are never re-bound on the way (the stored language tag and
     # the stored id:version are compared as given; a normalisation applied on one side only makes lexicons unselectable)
     from ..pyutil import binding_sites
